@@ -117,7 +117,7 @@ for _p, _what in (('C02', 'oracle: ASan/UBSan silence, rule-loop counter hook <=
 CHECKS['C19'] = dict(
     level='model_checking',
     steps=[dict(mode='asan', bin='c19_justify')],
-    rule='fonts {Padauk, Scheherazade, charis, Awami_test, Annapurna, S-full (justification levels), S-full RTL} x 3 (thorough 6) corpus texts of 5-9 (thorough 5-12) characters x dir flags 0..7 x {font NULL, ppm 24}; '
+    rule='fonts {Padauk, Scheherazade, charis, Awami_test, Annapurna, S-full (justification levels), S-full RTL, S-full and S-full RTL with the line-end flag (temporary line-end slots)} x 3 (thorough 6) corpus texts of 5-9 (thorough 5-12) characters x dir flags 0..7 x {font NULL, ppm 24}; '
          'histories: EVERY subset of cluster-boundary break positions (up to 2^9 quick / 2^11 thorough) applied with gr_slot_linebreak_before, then for every line every (width in {-1,0,W/4,W,3W,1e6}) x flags 0..3 x (pFirst,pLast) in {NULL, whole line, inner, last-only}, '
          'all calls applied one after another on the same segment; after EVERY call every line must still be the same slots in the same order with prev the inverse of next, finite origins and return value, unchanged gids when the font has no justification data; gr_seg_destroy + allocation balance at the end',
     state_meaning='states = break histories (one segment per subset of break positions); transitions = gr_seg_justify calls, each followed by the full integrity check of all lines',
@@ -131,7 +131,8 @@ CHECKS['C15'] = dict(
     level='exploration',
     steps=[dict(mode='asan', bin='c15_scale')],
     rule='(every shipped font x first 60 (quick) / all (thorough) corpus lines and words) + (S-full, S-full RTL, S-full v3, S-min x ALL strings of length 0..3 (thorough 0..4) over {a,b,c,d,e,space,acute,grave}) x dir {0,1,3} x ppm {0.5,1,7.3,12,48.5,upem,4096}: '
-         'structural dump identical to the font=NULL run; origin x/y, gr_slot_advance_X/Y, segment advance within 1e-4 relative of design value x ppm/upem. distinct = distinct structural dumps',
+         'structural dump identical to the font=NULL run; origin x/y, gr_slot_advance_X/Y, segment advance within 1e-4 relative of design value x ppm/upem. '
+         '(justified_lines) Padauk, Charis, Scheherazade, general.ttf x 25 (thorough 200) corpus items and S-full / S-full RTL x all strings of length 4 (thorough 5) over {a,b,space,acute,d} containing a space, paragraph direction = font direction: whole segment and BOTH lines after a break before each of the first 4 cluster starts x ppm {9,12,96,4096} x width factor {1.3,0.9}: gr_seg_justify(W x ppm/upem, font) must return and position every slot of the line as gr_seg_justify(W, NULL) scaled by ppm/upem, within one design unit per slot (the justifier hands out whole design units). distinct = distinct structural dumps',
     level_text='Bounded exhaustive product of fonts x texts x directions x ppm values on the real code with a differential oracle (design-unit run) and a linear-scaling oracle.',
     level_note='Trusted: the oracle tolerance 1e-4 (measured worst case < 1e-6). ppm values are a 7-point set, not all of (0,4096].',
     technique='exhaustive bounded configuration/input product on the real code, differential + metamorphic oracle',
@@ -189,6 +190,7 @@ CHECKS['C14'] = dict(
     rule='decoder component on exact-size guard-page input and output buffers vs a byte-at-a-time reference LZ4 block decoder: (a) ALL blocks of <=2 sequences + final literals over literal lengths {0,1,7,8,14,15,16,270} x match lengths {4,5,18,19,20,274} x offsets {1,2,3,7,8,9,produced,produced+1,0} '
          'x announced size {exact,-1,+1,+8}, and all 3-sequence blocks over reduced sets; (b) every truncation of valid seed blocks; (c) every single-byte deviation (all 255 values; thorough: x all token bytes) of valid seed blocks <=48 bytes; (d) ALL byte strings of length 13 (thorough 14) over {00,10,1F,F0}. '
          'Oracle: no fault, return in {-1} u [0,size]; size returned == announced size only if the reference decodes to exactly those bytes; valid shrinking encodings obeying the end-of-block rules must be accepted. '
+         '(table_wrapper) the [version][scheme:5|announced size:27] header of the compressed Silf and Glat tables of the three compressed S-full variants (thorough + Awami compressed): ALL 32 scheme values x 32 boundary sizes (0..5, 7..9, 12, 13, 16, compressed length +-1/-8/-9, true size +-1/+-4, half, double, powers of two, 27-bit maximum), loaded with options 0 and 7 under ASan: no fault, unmodified header loads and reports the uncompressed face, borrowed tables returned. '
          'Transparency: S-full with Silf / Glat / both compressed under EVERY encoding that differs from the greedy parse in 1 decision (thorough: 2 nearby decisions) out of {literal instead of match, shortest match, farthest offset, 19-byte match (length-extension byte)}: must load (options 0 and 7) and give the same face dump and the same segments for all strings <=2 (thorough <=3) over 9 characters x dir 0/1 as the uncompressed font; '
          'shipped pair Awami_test / Awami_compressed_test on the awami corpus x dir {1,3} x options {0,7}',
     state_meaning='one compressed block (or one compressed font); transitions = decoder runs compared with the reference decoder / shapings compared with the uncompressed font',
